@@ -364,6 +364,7 @@ func runC10(c *core.Ctx) {
 	c10InterfaceArguments(c)
 	c10MetaArguments(c)
 	c10StructFieldArguments(c)
+	c10MetaFieldsOffRoot(c)
 	c.R.Bound = fmt.Sprintf("base documents + %d mutations; one defect at every selection-set site (quick: every fourth defect kind on the mutated documents); 4 bad directives on every fragment definition and operation, fragments after and before the operations (quick: base documents); arguments only an implementer declares, given through the interface (6 request shapes)", k)
 	if !completed {
 		c.Cap("deadline reached")
@@ -752,6 +753,80 @@ func c10StructFieldArguments(c *core.Ctx) {
 			c.Violation("data-under-refused-key", attrs, detail)
 		default:
 			c.Outcome("rejected-as-required")
+		}
+	}
+}
+
+// ---- __schema and __type belong to the query root only - whatever the types are called: with "schema { query: Root }" an
+// ordinary object type may be called Query (and the root is not); selected on it, or on any other object, the meta-fields are
+// fields the container does not define.
+type c10Off struct{}
+
+func (c10Off) Resolve(f *ggql.Field, args map[string]interface{}) (interface{}, error) {
+	switch f.Name {
+	case "n", "a", "m":
+		return 7, nil
+	}
+	return c10Off{}, nil
+}
+
+func c10MetaFieldsOffRoot(c *core.Ctx) {
+	sdls := []string{
+		"schema { query: Root }\ntype Root { n: Int legacy: Query other: Other }\ntype Query { a: Int }\ntype Other { a: Int }\n",
+		"schema { query: Root mutation: Query }\ntype Root { n: Int legacy: Query other: Other }\ntype Query { a: Int m: Int }\ntype Other { a: Int }\n",
+		"type Query { n: Int legacy: Legacy other: Other }\ntype Legacy { a: Int }\ntype Other { a: Int }\n",
+	}
+	cases := []struct {
+		q, key string
+		valid  bool
+	}{
+		{`{ n legacy { a dfx: __schema { queryType { name } } } }`, "legacy.dfx", false}, {`{ n legacy { a dfx: __type(name: "Other") { name } } }`, "legacy.dfx", false},
+		{`{ other { dfx: __schema { queryType { name } } } }`, "other.dfx", false}, {`{ other { a dfx: __type(name: "Other") { name } } }`, "other.dfx", false},
+		{`{ n legacy { a __typename } __schema { queryType { name } } __type(name: "Other") { name } }`, "", true},
+	}
+	for si, sdl := range sdls {
+		for i, cs := range cases {
+			if !c.OwnsIdx(1<<40 + int64(si*10+i)) {
+				continue
+			}
+			c.Eval()
+			c.R.Distinct++
+			c.Nontrivial()
+			root := ggql.NewRoot(c10Off{})
+			if err := root.ParseString(sdl); err != nil {
+				panic(core.EngineError{Msg: "C10 off-root schema refused: " + err.Error()})
+			}
+			var res map[string]interface{}
+			pi := core.Safe(func() { res = root.ResolveString(cs.q, "", nil) })
+			detail := map[string]interface{}{"sdl": sdl, "query": cs.q, "response": res}
+			attrs := map[string]string{"defect": "meta-field-on-an-object-that-is-not-the-query-root", "container": "object", "strategy": "RS"}
+			if pi != nil {
+				c.Violation("panic", map[string]string{"site": pi.Site, "class": pi.Class, "defect": attrs["defect"], "strategy": "RS"}, detail)
+				continue
+			}
+			var at interface{} = res["data"]
+			if cs.key != "" {
+				for _, k := range strings.Split(cs.key, ".") {
+					m, _ := at.(map[string]interface{})
+					at = m[k]
+				}
+			}
+			switch {
+			case cs.valid && res["errors"] != nil:
+				detail["diff"] = "a valid request was answered with an error"
+				c.Violation("valid-refused", attrs, detail)
+			case cs.valid:
+				c.Outcome("ok-valid")
+			case res["errors"] == nil:
+				detail["diff"] = "no error for a meta-field selected on an object that is not the query root"
+				c.Outcome("missing-error")
+				c.Violation("missing-error", attrs, detail)
+			case at != nil:
+				detail["diff"] = "a value appears under the key of the refused selection"
+				c.Violation("data-under-refused-key", attrs, detail)
+			default:
+				c.Outcome("rejected-as-required")
+			}
 		}
 	}
 }
